@@ -19,3 +19,49 @@ Theorem zbreak_spec : forall z t, times_increasing (zz_tr z) = true ->
   zbreak z t = (zoff z t, zid z t).
 Proof. exact zbreak_spec_lemma. Qed.
 Print Assumptions zbreak_spec.
+
+From CCTZ Require Import Base Cal CivilImpl ZoneLoad ZoneImpl ZoneZ ZoneRefineDefs ZoneRefine FutureDefs LoadCert ImplRoundTrip.
+
+(* IMPLEMENTATION LEVEL (checked int64 BreakTime / MakeTime): the round trip, inside the table, beyond it
+   (400-year shift; the tail hypotheses are what ExtendTransitions guarantees), and for every accepted file *)
+Theorem c03_roundtrip_impl : forall z h h2 t al h',
+  zone_ok z = true -> int64 t ->
+  (z_extended z = false \/ (forall l, last_opt (z_trans z) = Some l -> t < tr_time l)) ->
+  break_time z h t = OK (al, h') ->
+  exists cl h'', make_time z h2 (al_cs al) = OK (cl, h'') /\
+    ((cl_kind cl = UNIQUE /\ cl_pre cl = t) \/
+     (cl_kind cl = REPEATED /\ (cl_pre cl = t \/ cl_post cl = t))).
+Proof. exact c03_roundtrip_impl_lemma. Qed.
+Print Assumptions c03_roundtrip_impl.
+
+Theorem c03_roundtrip_future : forall z h h2 t l al h',
+  zone_ok z = true -> z_extended z = true -> last_opt (z_trans z) = Some l ->
+  P400 <= tr_time l ->
+  (* the table's last transition is in local year last_year, and so is the civil second before it
+     (the hypotheses of make_future_lemma) *)
+  fy (tr_cs l) = z_last_year z -> fy (tr_pcs l) <= z_last_year z ->
+  (* the table's tail is periodic where BreakTime and MakeTime re-date differently: from 400
+     years before the last transition to the end of that civil year the offset is the final one *)
+  (forall t', tr_time l - P400 <= t' < tr_time l ->
+     fy (civil_of_seconds (t' + zoff (abs_zone z) t')) <= z_last_year z - 400 ->
+     zoff (abs_zone z) t' = zoff (abs_zone z) (tr_time l)) ->
+  int64 t -> tr_time l <= t ->
+  break_time z h t = OK (al, h') ->
+  exists cl h'', make_time z h2 (al_cs al) = OK (cl, h'') /\
+    ((cl_kind cl = UNIQUE /\ cl_pre cl = t) \/
+     (cl_kind cl = REPEATED /\ (cl_pre cl = t \/ cl_post cl = t))).
+Proof. exact c03_roundtrip_future_lemma. Qed.
+Print Assumptions c03_roundtrip_future.
+
+Theorem c03_every_accepted_file : forall bs z h h2 t al h',
+  load_bytes bs = OK (Some z) ->
+  gaps_wide (zz_doff (abs_zone z)) (zz_tr (abs_zone z)) = true ->
+  int64 t ->
+  (z_extended z = false \/ (forall l, last_opt (z_trans z) = Some l -> t < tr_time l)) ->
+  break_time z h t = OK (al, h') ->
+  exists cl h'', make_time z h2 (al_cs al) = OK (cl, h'') /\
+    ((cl_kind cl = UNIQUE /\ cl_pre cl = t) \/
+     (cl_kind cl = REPEATED /\ (cl_pre cl = t \/ cl_post cl = t))).
+Proof. exact accepted_c03_roundtrip_lemma. Qed.
+Print Assumptions c03_every_accepted_file.
+
